@@ -1325,25 +1325,30 @@ class Session:
         if self.sc or self.connection.transport == PhysicalTransport.BR_EDR:
             keys.ltk = PairingKeys.Key(value=self.ltk, authenticated=authenticated)
         else:
-            our_ltk_key = PairingKeys.Key(
-                value=self.ltk,
-                authenticated=authenticated,
-                ediv=self.ltk_ediv,
-                rand=self.ltk_rand,
-            )
-            if not self.peer_ltk:
-                logger.error("peer_ltk is None")
-            peer_ltk_key = PairingKeys.Key(
-                value=self.peer_ltk or b'',
-                authenticated=authenticated,
-                ediv=self.peer_ediv,
-                rand=self.peer_rand,
+            # Only keep the long term keys that were actually exchanged: the one
+            # we distributed (if any) and the one the peer distributed (if any).
+            local_key_distribution = (
+                self.initiator_key_distribution
+                if self.is_initiator
+                else self.responder_key_distribution
             )
             # The key received from the peer is the one to use when we are the
             # central, the key we distributed is the one the peer will use when we
             # are the peripheral, whichever role we had during pairing.
-            keys.ltk_central = peer_ltk_key
-            keys.ltk_peripheral = our_ltk_key
+            if self.peer_ltk is not None:
+                keys.ltk_central = PairingKeys.Key(
+                    value=self.peer_ltk,
+                    authenticated=authenticated,
+                    ediv=self.peer_ediv,
+                    rand=self.peer_rand,
+                )
+            if local_key_distribution & KeyDistribution.ENC_KEY:
+                keys.ltk_peripheral = PairingKeys.Key(
+                    value=self.ltk,
+                    authenticated=authenticated,
+                    ediv=self.ltk_ediv,
+                    rand=self.ltk_rand,
+                )
         if self.peer_identity_resolving_key is not None:
             keys.irk = PairingKeys.Key(
                 value=self.peer_identity_resolving_key, authenticated=authenticated
